@@ -142,31 +142,36 @@ int main(int argc, char** argv) {
     int nmax = (int)a.opti("nmax", 6);
     std::vector<i64> xs = {0, 9, 16, 40}, ys = {0, 7, 20, 44};
     if (a.opti("lat", 0) == 1) { xs = {0, 24, 31, 44}; ys = {0, 13, 37, 46}; }
-    std::vector<P> board; for (i64 y : ys) for (i64 x : xs) board.push_back(P{x + 100, y + 100});
+    // --ra A --rb B: the whole lattice is turned and scaled by the integer similarity (x, y) -> (A x - B y, B x + A y): every corner stays exactly
+    // perpendicular but no edge is axis-parallel (unit normals with two non-zero components; sin of the turning angle is +-1 up to rounding)
+    i64 RA = a.opti("ra", 1), RB = a.opti("rb", 0); double rscale = std::sqrt((double)(RA * RA + RB * RB));
+    auto turn = [&](i64 x, i64 y) { return P{RA * x - RB * y + 100 + 50 * RB, RB * x + RA * y + 100}; };
+    std::vector<P> board; for (i64 y : ys) for (i64 x : xs) board.push_back(turn(x, y));
     std::vector<Path> polys;
     for (int n = 4; n <= nmax; n += 2) for (int type = 0; type < 2; ++type) {
       std::vector<int> cur; std::vector<char> used(board.size(), 0);
       std::function<void()> rec = [&]() {
         int i = (int)cur.size();
         if (i == n) {
-          bool horiz = ((n - 1 + type) & 1) == 0; const P& u = board[cur.back()]; const P& v = board[cur[0]];
-          if (horiz ? u.y != v.y : u.x != v.x) return;
+          bool horiz = ((n - 1 + type) & 1) == 0; int u = cur.back(), v = cur[0];
+          if (horiz ? u / 4 != v / 4 : u % 4 != v % 4) return;
           Path p; for (int j : cur) p.push_back(board[j]);
           if (is_simple_closed(p)) polys.push_back(p);
           return;
         }
         if (i == 0) { for (int j = 0; j < (int)board.size(); ++j) { used[j] = 1; cur.push_back(j); rec(); cur.pop_back(); used[j] = 0; } return; }
-        bool horiz = ((i - 1 + type) & 1) == 0; const P& u = board[cur.back()];
+        bool horiz = ((i - 1 + type) & 1) == 0; int u = cur.back();
         for (int j = cur[0] + 1; j < (int)board.size(); ++j) {     // rotation-normalised: the walk starts at its smallest board index
           if (used[j]) continue;
-          if (horiz ? board[j].y != u.y : board[j].x != u.x) continue;
+          if (horiz ? j / 4 != u / 4 : j % 4 != u % 4) continue;     // board index = 4 * row + column
           used[j] = 1; cur.push_back(j); rec(); cur.pop_back(); used[j] = 0;
         }
       };
       rec();
     }
     std::vector<Params> plist;
-    for (double d : {2.5, -2.5, 6.0, -6.0, 10.0, -10.0, 14.0, -14.0}) {
+    for (double d0 : {2.5, -2.5, 6.0, -6.0, 10.0, -10.0, 14.0, -14.0}) {
+      double d = d0 * rscale;
       plist.push_back({d, 2, 2.0, 0.25, false}); plist.push_back({d, 3, 2.0, 0.0, false}); plist.push_back({d, 0, 2.0, 0.0, false}); plist.push_back({d, 1, 2.0, 0.0, false});
       if (a.thorough()) { plist.push_back({d, 2, 2.0, 0.0, true}); plist.push_back({d, 3, 1.0, 0.0, true}); plist.push_back({d, 3, 4.0, 0.0, false}); }
     }
@@ -181,7 +186,7 @@ int main(int argc, char** argv) {
     // two (or three) strictly disjoint rectangles of one orientation in one call: their inflations merge across gaps of 7, 9, 13 units (one polygon
     // region made of several simple polygons; the signed distance is the distance to the nearest of them)
     size_t npairs = 0;
-    if (a.opti("pairs", 1)) {
+    if (a.opti("pairs", 1) && RB == 0) {
       std::vector<i64> px = xs, py = ys; px.push_back(xs.back() + 9); py.push_back(ys.back() + 13);
       struct Rc { i64 l, t, r, b; }; std::vector<Rc> rcs;
       for (size_t i = 0; i < px.size(); ++i) for (size_t j = i + 1; j < px.size(); ++j) for (size_t k = 0; k < py.size(); ++k) for (size_t l = k + 1; l < py.size(); ++l) rcs.push_back({px[i] + 100, py[k] + 100, px[j] + 100, py[l] + 100});
@@ -199,7 +204,7 @@ int main(int argc, char** argv) {
         }
       }
     }
-    if (done) rep.bounds_completed.push_back("rectilinear simple polygons n<=" + std::to_string(nmax) + " over the 4x4 lattice lat=" + std::to_string(a.opti("lat", 0)) + ": " + std::to_string(polys.size()) + " shapes and " + std::to_string(npairs) + " pairs of disjoint rectangles (both orientations) x " + std::to_string(plist.size()) + " parameter sets");
+    if (done) rep.bounds_completed.push_back("rectilinear simple polygons n<=" + std::to_string(nmax) + " over the 4x4 lattice lat=" + std::to_string(a.opti("lat", 0)) + " turned by (" + std::to_string(RA) + "," + std::to_string(RB) + "): " + std::to_string(polys.size()) + " shapes and " + std::to_string(npairs) + " pairs of disjoint rectangles (both orientations) x " + std::to_string(plist.size()) + " parameter sets");
     rep.write();
     return 0;
   }
